@@ -1,6 +1,8 @@
 """C08 -- results covariant under relabelling of field space (translation, reflection, permutation)."""
 from __future__ import annotations
 
+import math
+
 import numpy as np
 
 import common as C
@@ -88,7 +90,11 @@ def _xsm_relabellings(rep: C.Report, tier: str):
         return {"vw": res.wallVelocity, "success": res.success, "vJ": float(m.hydrodynamics.vJ), "widthH*Tn": float(W[ih] * Tn),
                 "widthS*Tn": float(W[is_] * Tn), "separation*Tn": float(sep * Tn)}
     base = run()
-    labs = [("permute", dict(perm=(1, 0))), ("reflect-h+shift", dict(signs=(-1.0, 1.0), shift=(40.0, -25.0)))]
+    # "highT-phase-at-origin": the frame in which the metastable phase (0, s_h(Tn)) sits at the origin AT Tn (a common convention); its singlet
+    # component is then zero at Tn but not at other temperatures
+    sh_Tn = math.sqrt(-((120.0 ** 2 - 0.5 * 0.9 * 246.0 ** 2) + (0.9 / 6 + 1.0 / 4) * 100.0 ** 2) / 1.0)      # in units of u (Tn = 100 u)
+    labs = [("permute", dict(perm=(1, 0))), ("reflect-h+shift", dict(signs=(-1.0, 1.0), shift=(40.0, -25.0))),
+            ("highT-phase-at-origin", dict(shift=(0.0, -sh_Tn)))]
     if tier == "thorough":
         labs += [("permute+reflect-s", dict(perm=(1, 0), signs=(1.0, -1.0))), ("shift", dict(shift=(-120.0, 300.0)))]
     for name, relabel in labs:
